@@ -165,7 +165,7 @@ def run(chk: core.Check):
         res = mc(chk, f"emit {shape} {sorted(kinds)}", shape, m, kinds, cfg=emit_cfg, emit=(every, seed % every), workers=1)
         seen = set()
         for e in res.emits:
-            key = repr(e["cs"])
+            key = tlc.canon(e["cs"])
             if key in seen:
                 continue
             seen.add(key)
